@@ -42,7 +42,7 @@ func jobC07(c *rt.Ctx) {
 						// library's own signer (tests the statement literally: sign under one pair, verify under another)
 						t := modelTriple(50+ki, msg, sv)
 						if mi == 1 {
-							t = honestTriple(50+ki, msg, sv)
+							t = libTriple(50+ki, msg, sv)
 							if ok, _ := modelVerify(t, sv, false); !ok {
 								d := hexd(t)
 								d["variant"] = sv.String()
@@ -67,7 +67,7 @@ func jobC07(c *rt.Ctx) {
 							entries := append([]triple{}, fillers(vv, n)...)
 							for i := lo; i < n; i++ {
 								if mi == 1 {
-									entries[i] = honestTriple(50+ki+i, msg, sv)
+									entries[i] = libTriple(50+ki+i, msg, sv)
 								} else {
 									entries[i] = modelTriple(50+ki+(i-lo), msg, sv)
 								}
@@ -259,7 +259,12 @@ func jobC07(c *rt.Ctx) {
 		}
 	}
 	// hash selectors 0..20: accepted iff 0 or SHA-512
-	for hsel := 0; hsel <= 20; hsel++ {
+	hsels := []uint{}
+	for h := uint(0); h <= 24; h++ {
+		hsels = append(hsels, h)
+	}
+	hsels = append(hsels, 64, 200, 1<<31)
+	for _, hsel := range hsels {
 		if !c.Take() {
 			continue
 		}
